@@ -22,7 +22,7 @@ CHECKS = {
               'a case is non-trivial iff at least one request conflicted (double vote / surround, by the pairwise oracle) '
               'with a signature released earlier in the same history; distinct = sha256 of the case JSON'),
         essential=['has-batch', 'batch-repeats-key', 'single+batch-on-one-key', 'restart-after-release',
-                   'uses-value>=2^63', 'request-at-0-after-release-at-0', 'by-public-key', 'via-grpc-handler', 'public-key-with-trailing-bytes'],
+                   'uses-value>=2^63', 'request-at-0-after-release-at-0', 'by-public-key', 'via-grpc-handler', 'public-key-with-trailing-bytes', 'history-with-a-store-write-failure-window'],
         assumptions=['herumi BLS and badger are trusted', 'key material is a fixed pool of 4 keys',
                      'released = response carries a non-empty signature'],
     ),
@@ -38,7 +38,7 @@ CHECKS = {
               'attestations as noise, restarts; slots from a collision-prone mixture incl. >=2^63); non-trivial iff '
               'at least one proposal request was at or below a slot already released for that key'),
         essential=['restart-after-release', 'uses-value>=2^63', 'request-at-0-after-release-at-0', 'by-public-key',
-                   'via-grpc-handler', 'public-key-with-trailing-bytes'],
+                   'via-grpc-handler', 'public-key-with-trailing-bytes', 'history-with-a-store-write-failure-window'],
         assumptions=['herumi BLS and badger are trusted', 'released = response carries a non-empty signature'],
     ),
 }
@@ -56,7 +56,7 @@ CHECKS['C08'] = dict(
           'uint64 extremes for slot/index/proposer, advancing epochs per key; non-trivial iff a batch larger than GOMAXPROCS was signed at every '
           'position or a signed request carried an extreme field value; distinct = sha256 of the case JSON'),
     essential=['batch-larger-than-gomaxprocs-all-signed', 'batch>=100', 'endpoint-attest', 'endpoint-attests', 'endpoint-propose', 'endpoint-sign',
-               'endpoint-multisign', 'gomaxprocs-01', 'batch-sharing-data-identical', 'batch-sharing-data-one-field'],
+               'endpoint-multisign', 'gomaxprocs-01', 'batch-sharing-data-identical', 'batch-sharing-data-one-field', 'batch-with-mixed-verdicts'],
     assumptions=['herumi BLS verification is trusted', 'requests are well-formed (32-byte roots and domains)'],
 )
 
